@@ -131,7 +131,6 @@ def dowhile_case(draw, kmax=13, kmin_bias=12, two_stage=True, allow_same_names=T
         # instantiate_dowhile_next_iteration looks the producer up among the *replicated* component names, so a
         # replicated producer is rejected by the code (FlowIRReferenceToUnknownComponent) - outside the domain.
         if draw(st.integers(0, 3)) != 0:
-            prop = propagating(loop)
             ok = [t for t in range(n_loop) if not reps[t]]
             if ok:
                 t = ok[draw(st.integers(0, len(ok) - 1))]
